@@ -1,10 +1,10 @@
 #!/bin/sh
 # Create the overlay interpreter used by every check (offline).
 # /verif/.venv = venv of /venv/bin/python + /venv's site-packages (cffi editable, pycparser)
-#              + z3-solver, crosshair-tool, jsonschema from the offline wheelhouse.
+#              + z3-solver, jsonschema from the offline wheelhouse.
 set -e
 V=/verif/.venv
-if [ -x "$V/bin/python" ] && "$V/bin/python" -c "import z3, crosshair, cffi, pycparser" 2>/dev/null; then
+if [ -x "$V/bin/python" ] && "$V/bin/python" -c "import z3, jsonschema, cffi, pycparser" 2>/dev/null; then
     exit 0
 fi
 rm -rf "$V"
@@ -12,5 +12,5 @@ rm -rf "$V"
 SP=$("$V/bin/python" -c "import sysconfig;print(sysconfig.get_paths()['purelib'])")
 printf "import site; site.addsitedir('/venv/lib/python3.12/site-packages')\n" > "$SP/_verif_overlay.pth"
 PIP_NO_INDEX=1 "$V/bin/python" -m pip install -q --no-index --find-links /opt/veriftools/wheels \
-    z3-solver crosshair-tool jsonschema >/dev/null
-"$V/bin/python" -c "import z3, crosshair, cffi, pycparser; print('overlay ok', z3.get_version_string())"
+    z3-solver jsonschema >/dev/null
+"$V/bin/python" -c "import z3, jsonschema, cffi, pycparser; print('overlay ok', z3.get_version_string())"
